@@ -398,6 +398,10 @@ def r3_per_component_boundaries(ctx):
     t2 = [i for i in gs if norm(expand(pv, i.test, _seen={"boundaries_array"})) == "boundaries_array.shape != (len(values), 2)"]
     ok = len(t1) == 1 and len(t2) == 1
     ctx.check(ok, pv.qual + "#shape", "boundary shapes (2,) / (len(values), 2) enforced" if ok else "ParameterValues no longer validates the shape of the boundaries", where=pv, node=(t1 + t2 + [pv.node])[0])
+    # the array is the declared pairs in the declared order (component i keeps ITS pair)
+    bdefs = [val for st_, val in local_defs(pv, "boundaries_array") if val is not None and not (isinstance(val, ast.Constant) and val.value is None)]
+    okb = len(bdefs) == 1 and isinstance(bdefs[0], ast.Call) and call_name(bdefs[0]) in ("np.array", "np.asarray", "numpy.array", "numpy.asarray") and bdefs[0].args and dotted(bdefs[0].args[0]) == "boundaries" and not order_breakers(bdefs[0])
+    ctx.check(okb, pv.qual + "#as-declared", "boundaries array = np.array(boundaries): pairs kept as declared, in declaration order" if okb else f"the boundaries are rewritten before use ({norm(bdefs[0])[:70] if bdefs else 'no definition'}): component i may get another component's pair", where=pv, node=bdefs[0] if bdefs else pv.node)
     sts = [st for st, t in stores(pv.node, lambda t: dotted(t) == "self._boundaries")]
     ok = len(sts) == 1 and dotted(sts[0].value) == "boundaries_array"
     ctx.check(ok, pv.qual + "#store", "stores the validated array" if ok else "stores something else than the validated boundaries", where=pv, node=sts[0] if sts else pv.node)
